@@ -134,6 +134,7 @@ class InterpBase:
         self.class_store: Dict[Tuple[str, str], Any] = {}  # class attributes set at class creation / written later
         self.class_init_phase: bool = False
         self.widened: bool = False
+        self.reductions: List[Dict[int, list]] = []  # per active `for` statement: observed right-hand sides of its reduction statements
         self.shift_mode: bool = False
         self.track_sym_ranges: bool = False
         self.sym_rng: Dict[Any, Interval] = {}
